@@ -111,8 +111,11 @@ Definition ok_model (c : tcase) : bool :=
       same_rec (prepare_for_save p) rec_
       && same_rec (p_attrs p') aft && jv_eqb (p_value p') aft_last && (p_hlt p' =? aft_hlt)%Z && writes_agree ws writes
   | DC n d h rec_ n' d' h' =>
-      same_rec (device_save (mk_device n d h)) rec_
-      && device_eqb (device_load empty_hash_run (mk_device "" "" []) rec_) (mk_device n' d' h')
+      match rec_ with
+      | [] => device_eqb (mk_device n d h) (mk_device n' d' h')         (* never saved: module defaults both times *)
+      | _ => same_rec (device_save (mk_device n d h)) rec_
+             && device_eqb (device_load empty_hash_run (mk_device "" "" []) rec_) (mk_device n' d' h')
+      end
   | SC before rec_ after =>
       match slave_load (norm_slave_rec before), slave_load rec_ with
       | Some s, Some s' =>
